@@ -103,15 +103,14 @@ def check(desc, col):
 
 
 N = {"quick": 32, "thorough": 320}
-NSHARDS = 16
 
 
 def shards(tier, seed):
-    return [{"k": k, "n": N[tier] // NSHARDS, "seed": seed} for k in range(NSHARDS)]
+    return MM.deal([{} for _ in range(N[tier])], tier, seed)
 
 
 def run_shard(shard, col):
-    MM.drive_unbiased(cases(), check, n=shard["n"], seed=hash32(shard["seed"], "C17", shard["k"]), col=col)
+    MM.run_slots(shard, col, "C17", lambda slot: cases(), check)
 
 
 def replay(desc, col):
@@ -121,7 +120,12 @@ def replay(desc, col):
 REGISTER = True
 QUICK_BUDGET_S = 600
 THOROUGH_BUDGET_S = 3000
-MUTANTS = []
+MUTANTS = [
+    {"what": "join_pmappings._apply_edp_columns: energy_delay_product = energy + latency", "caught": True, "how": "edp-column!=E*L"},
+    {"what": "make_tile_shapes._clean_energy_columns: leak energy left out of Total energy when LATENCY/EDP is not a metric (ENERGY-only run optimises dynamic energy)", "caught": True, "how": "front-minE!=optE, nodetail-energy"},
+    {"what": "join_pmappings.OptimalityThresholder: a pmapping must beat a previous solution in ALL objectives (|= -> &=)", "caught": True, "how": "front-minL!=optL, front-minE!=optE, mapper-crash (5 keys)"},
+    {"what": "fast_pareto 2-D sweep sorts the first column descending", "caught": True, "how": "front-minE!=optE, front-minL!=optL"},
+]
 MANIFEST = {
     "level_text": "Metamorphic testing of map_workload_to_arch: each generated small spec is mapped under ENERGY, LATENCY, ENERGY|LATENCY and ENERGY_DELAY_PRODUCT (plus one run with eval_in_detail off) and the optima must agree (front minima == single-metric optima, min E*L over the front == EDP optimum, EDP column == E*L on every row). No counterexample in N specs; not a proof.",
     "level_note": "1-2 Einsums, 2-3 memory levels, rank bounds <= 6, finite throughputs and leak. Optimum of a run = column minimum over returned rows. rel 1e-5.",
